@@ -292,7 +292,7 @@ class Ref:
             self.walk(of, ipath)
         else:
             self.leaves.append((ipath, of.kind if isinstance(of, Prim) else of.name,
-                                tuple(sorted((k_, str(v)) for k_, v in of.params.items()))))
+                                tuple(sorted((k_, str(v)) for k_, v in (of.params or {}).items()))))
             for port, (kind, w) in port_table(of).items():
                 for i in range(w):
                     self.terms.append((ipath, port, i))
